@@ -24,7 +24,9 @@ constexpr std::pair<IntT, IntT> reduce_fraction(IntT a, IntT b) {
 
 template <typename IntT>
 constexpr IntT log2i(IntT v) {
-  return (sizeof(IntT) << 3) - 1 - __builtin_clz(v);
+  // The operand is widened to 64 bits, so the leading-zero count must be taken
+  // (and subtracted) at that width regardless of IntT
+  return 63 - __builtin_clzll(static_cast<unsigned long long>(v));
 }
 
 } // namespace phosg
